@@ -261,6 +261,7 @@ func (pipeline *IncrementalPipeline) sync(job *job, ctx context.Context) (int, e
 
 						local := func(workId int, lentities []*server.Entity, wg *sync.WaitGroup) {
 							verifhook.Go(runner, "transform.worker")
+							defer verifhook.Done(runner, "transform.worker")
 							res := presult{}
 							if ferr := verifhook.FaultOn(runner, "transform.batch", lentities); ferr != nil {
 								workResults[workId] = presult{err: ferr}
